@@ -858,7 +858,11 @@ impl TypedExpr {
             }
             ExprEnum::UnaryOp(UnaryOp::Neg, x) => {
                 let x = x.compile(prg, env, circuit);
-                circuit.push_negation_circuit(&x)
+                let negated = circuit.push_negation_circuit(&x);
+                // the minimum value is the only x for which both x and -x are negative
+                let overflow = circuit.push_and(x[0], negated[0]);
+                circuit.push_panic_if(overflow, PanicReason::Overflow, meta);
+                negated
             }
             ExprEnum::UnaryOp(UnaryOp::Not, x) => {
                 let x = x.compile(prg, env, circuit);
